@@ -91,7 +91,7 @@ type Sched struct {
 func New(c *sim.Ctx) *Sched {
 	s := &Sched{C: c, Sites: map[int]int{}, MaxSteps: 4000}
 	s.preempt = []int{30, 150, 400, 800}[c.Weighted(2, 3, 3, 1)]
-	if c.Chance(250) && os.Getenv("VERIF_NOSTALL") == "" {
+	if c.Chance(100) && os.Getenv("VERIF_NOSTALL") == "" {
 		s.stallPm = []int{15, 40, 100}[c.Draw(3)]
 	}
 	if c.Chance(100) && os.Getenv("VERIF_NOPCT") == "" {
